@@ -25,7 +25,7 @@ import json
 import os
 
 from ..cfg import cfg_of
-from ..core import Undecidable, unparse, walk_local, where as where_
+from ..core import Undecidable, dotted, unparse, walk_local, where as where_
 
 HERE = os.path.dirname(os.path.dirname(os.path.dirname(os.path.abspath(__file__))))
 REF = os.path.join(HERE, "reference", "total.json")
@@ -452,6 +452,44 @@ def reference():
 # the clause
 # ---------------------------------------------------------------------------
 
+def _mutable_registries(repo, mod):
+    """{name: where it is mutated} for module-level names of `mod` bound to a container display / constructor and
+    mutated (subscript store, del, or a mutating method) inside some function of the package"""
+    def containers(m):
+        out_ = set()
+        for st in m.tree.body:
+            if isinstance(st, ast.Assign) and len(st.targets) == 1 and isinstance(st.targets[0], ast.Name):
+                v = st.value
+                if isinstance(v, (ast.Dict, ast.List, ast.Set)) or (isinstance(v, ast.Call) and (dotted(v.func) or "").split(".")[-1] in
+                                                                       ("dict", "list", "set", "OrderedDict", "defaultdict", "WeakKeyDictionary", "WeakValueDictionary", "deque")):
+                    out_.add(st.targets[0].id)
+        return out_
+    cands = containers(mod)
+    everywhere = set()
+    for m in repo.modules.values():
+        everywhere |= containers(m)
+    for st in ast.walk(mod.tree):
+        if isinstance(st, ast.ImportFrom) and st.level:
+            for a in st.names:
+                if a.name in everywhere:
+                    cands.add(a.asname or a.name)
+    out = {}
+    if not cands:
+        return out
+    MUT = {"append", "add", "update", "pop", "popitem", "clear", "remove", "extend", "insert", "setdefault", "discard", "appendleft"}
+    for rel, m in repo.modules.items():
+        for q, fn in m.funcs.items():
+            for n in ast.walk(fn):
+                nm = None
+                if isinstance(n, ast.Subscript) and isinstance(n.ctx, (ast.Store, ast.Del)) and isinstance(n.value, ast.Name):
+                    nm = n.value.id
+                elif isinstance(n, ast.Call) and isinstance(n.func, ast.Attribute) and n.func.attr in MUT and isinstance(n.func.value, ast.Name):
+                    nm = n.func.value.id
+                if nm in cands and nm not in out:
+                    out[nm] = "%s::%s" % (rel, q)
+    return out
+
+
 def total(ctx):
     pid = ctx.pid
     files = PROP_FILES.get(pid, [])
@@ -562,6 +600,22 @@ def total(ctx):
                         # the name it lands on must not itself be passed correctly elsewhere as keyword (then it would be a TypeError anyway)
                         ctx.bad(a, "`%s` is passed positionally to %s() where it lands on parameter `%s`, while the callee has a parameter named `%s` at another position: arguments are swapped "
                                    "(the signature and this call site disagree)" % (nm, callee.name, here, nm), key="%s::%s::swapped argument %s -> %s" % (rel, q, nm, callee.name))
+    # (g) memoised functions: a function wrapped in a result cache (functools.lru_cache / cache / cached_property ...) must
+    # not read a module-level container that the package mutates after import (a registry): its first answer would be
+    # served after the registry has changed.
+    for rel in files:
+        if rel not in ctx.repo.modules:
+            continue
+        mod = ctx.repo.modules[rel]
+        registries = _mutable_registries(ctx.repo, mod)
+        for q, fn in mod.funcs.items():
+            memo = [d for d in fn.decorator_list if "cache" in (dotted(d.func if isinstance(d, ast.Call) else d) or "").lower()]
+            if not memo:
+                continue
+            read = sorted({n.id for n in ast.walk(fn) if isinstance(n, ast.Name) and isinstance(n.ctx, ast.Load) and n.id in registries})
+            if read:
+                ctx.bad(fn, "%s is memoised (%s) but reads %s, a module-level container that is modified after import (%s): the first answer is served after the registry has changed"
+                        % (q, unparse(memo[0]), ", ".join(read), registries[read[0]]), key="%s::%s::memoised reader of %s" % (rel, q, read[0]))
     ctx.ok(None, "%d functions of %d files: no undefined name, no local read without a reaching binding, no value-returning function that can fall off its end; %d classes keep storing every attribute they stored on the pinned tree (%d attribute reads)"
            % (n_fn, len(files), n_cls, n_use), key="%s::<files of %s>::executable on every path" % ("joblib", pid))
     ctx.floor(n_fn, 1, "functions analysed by %s.TOTAL" % pid)
